@@ -32,7 +32,7 @@ R17.2 the skeleton parses and everything before the package clause is comment or
 R17.3 with mock-build-tags set, go/build's own header rule (build.Context.MatchFile on the skeleton text) includes the file iff the expression is satisfied (checked for a satisfying and two falsifying tag sets) and the expression is emitted raw (no function applied); without it the file is always included;
 R17.4 the boilerplate is emitted verbatim: the hole is 'index .TemplateData "boilerplate-file" | readFile' with no further function, starts at the beginning of a line and ends at the end of a line, and it precedes the package clause; template_funcs.ReadFile returns string(os.ReadFile(path)) unchanged and propagates the error; FuncMap["readFile"] is ReadFile;
 R17.5 the header regions of the two templates are identical up to the template's own name;
-R17.7 the header survives every formatter: gofmt is go/format.Source and goimports is imports.Process with Comments: true (or default options), each applied to the rendered bytes.`
+R17.7 the header survives every formatter: every imports.Options value written in the generator package sets Comments: true (go/format.Source and a nil *Options always keep comments), and every library formatter call reachable from TemplateGenerator.format is applied to the rendered bytes.`
 	c.NotDecided = "that gofmt/goimports keep the header where the template put it (library behaviour); arbitrary boilerplate texts (only comment-only text is modelled, with and without a trailing newline)."
 	c.Assumptions = []string{"go/build.Context.MatchFile implements the toolchain's build-constraint header rule", "boilerplate text is comment-only"}
 	c.Rule("R17.0", 10, "")
